@@ -573,16 +573,32 @@ Definition exactb (ps : pstate) : bool :=
   && nodupb (ids (rows (sto ps))) && nodupb (live_sids (ents ps)).
 
 (* ---------------------------------------------------------------- wire format of run *)
+(* integers travel as sign + little-endian limbs of 32 bits (the OCaml driver reads native ints) *)
+Definition limb : N := 4294967296.
+Fixpoint limbs (fuel : nat) (n : N) : option (list sx) :=
+  match n with
+  | 0 => Some []
+  | _ => match fuel with
+         | O => None
+         | S f => match limbs f (N.div n limb) with
+                  | Some r => Some (A (N.modulo n limb) :: r)
+                  | None => None
+                  end
+         end
+  end.
+Definition sx_n (sign : N) (n : N) : sx :=
+  match limbs 16 n with Some l => L [A sign; L l] | None => sx_malformed end.
 Definition sx_z (z : Z) : sx :=
   match z with
-  | Z0 => L [A 0; A 0]
-  | Zpos p => L [A 0; A (Npos p)]
-  | Zneg p => L [A 1; A (Npos p)]
+  | Z0 => sx_n 0 0
+  | Zpos p => sx_n 0 (Npos p)
+  | Zneg p => sx_n 1 (Npos p)
   end.
+Definition unlimbs (l : list N) : N := fold_right (fun d acc => d + limb * acc) 0 l.
 Definition un_z (x : sx) : option Z :=
   match x with
-  | L [A 0; A n] => Some (Z.of_N n)
-  | L [A 1; A n] => Some (Z.opp (Z.of_N n))
+  | L [A 0; l] => option_map (fun d => Z.of_N (unlimbs d)) (un_list un_atom l)
+  | L [A 1; l] => option_map (fun d => Z.opp (Z.of_N (unlimbs d))) (un_list un_atom l)
   | _ => None
   end.
 
